@@ -63,6 +63,20 @@ CHECKS = {
         technique="Lean 4 theorem over a decision-table model + complete enumeration on the implementation",
         ref="DESIGN.md §5 C19",
     ),
+    "C14": dict(
+        category="proof",
+        text="For EVERY analysis function (also one that fails on some frame), every settings record and every sequence of (field, time): folding DropletTracker.handle over the frames equals mapping the analysis over the stored fields with the same options and zipping with the times, and both fail alike (tracker_eq_offline, tracker_times); every tracker option is forwarded under the right keyword (optsOf_forwards_all); the length-scale tracker is a total function recording value-or-NaN per frame (lengthscale_records_all). The model is tied to the code by recording stubs patched onto locate_droplets/get_length_scale (kwargs received must equal optsOf for the complete 6x2x2x2x3 settings table; sequences with a raising analysis), by end-to-end runs against EmulsionTimeCourse.from_storage on a MemoryStorage of the same fields with bitwise comparison, by the file written in finalize(), and (thorough) by real Cahn-Hilliard runs.",
+        note="Trusted: Lean kernel; propext/Quot.sound; py-pde calls handle(field, t) at the interrupts; extract_field is the identity for a ScalarField; the analysis functions are parameters of the model (their own behaviour is C01-C05, C16-C18).",
+        technique="Lean 4 theorems about a parametric model + stub/differential correspondence",
+        ref="DESIGN.md §5 C14",
+    ),
+    "C15": dict(
+        category="proof",
+        text="Model of executor.map: task i owns slot i, workers complete tasks in any order, results are read in index order. Theorems: for every task function, input list and completion schedule covering all tasks (any permutation, any worker count) the gathered list equals xs.map f (map_schedule_independent, schedules_agree); the pool branches of refine_droplets (with the None filter) and from_storage equal their serial branches. The real code is run with num_processes in {1,2,3,5,'auto'} while per-task delays installed before the pool forks force reversed, rotated and random completion orders (observed orders are recorded and replayed through the model); results are compared bitwise and in order with the serial run, and repeated runs must be identical.",
+        note="Trusted: Lean kernel; propext/Quot.sound; concurrent.futures.ProcessPoolExecutor.map yields in submission order and pickling preserves values (stdlib contracts, monitored by the bitwise comparison); determinism of scipy.optimize.least_squares on identical inputs.",
+        technique="Lean 4 theorems about a scheduling model + forced-schedule differential runs",
+        ref="DESIGN.md §5 C15",
+    ),
 }
 
 NOT_APPLICABLE = {}
